@@ -10,9 +10,13 @@ Require Import Verif.Base.Harness Verif.Merge.Model.
 Definition oattrs := list (name * attrv).
 Inductive otype :=
 | OT (rel:bool) (a:oattrs) (fs:list (name * (name * bool * oattrs))) (pk:list name)
-| OE (a:oattrs) (items:list (name * Z)).
-Definition oep := (bool * bool * oattrs * list stmt)%type.          (* pubsub, rest, attrs, statements *)
-Record oapp := OA { o_name : appname; o_long : option name; o_attrs : oattrs;
+| OE (a:oattrs) (items:list (name * Z))
+| OAl (a:oattrs) (ty:name)
+| OU (a:oattrs) (alts:list name).
+(* pubsub, rest, source, attrs, params, query params, url params, statements (nested scopes as SOpen .. SClose) *)
+Record oep := OEP { oe_pubsub : bool; oe_rest : bool; oe_source : option appname; oe_attrs : oattrs;
+                    oe_params : list name; oe_query : list name; oe_url : list name; oe_stmts : list stmt }.
+Record oapp := OA { o_name : appname; o_long : option name; o_attrs : oattrs; o_mixins : list name;
                     o_types : list (name * otype); o_eps : list (epkey * oep) }.
 
 Definition c04_case := (name * list filedesc * option (list oapp))%type.
@@ -24,16 +28,21 @@ Definition type_of (t:otype) : typeent :=
   | OT rel a fs _ => TRec rel (attrs_of a)
        (list_to_map (map (fun p => match p with (n, (ty, opt, fa)) => (n, Fld ty opt (attrs_of fa)) end) fs))
   | OE a items => TEnum (attrs_of a) (list_to_map items)
+  | OAl a ty => TAlias (attrs_of a) ty
+  | OU a alts => TUnion (attrs_of a) alts
   end.
 
-Definition ep_of (e:oep) : endpoint := match e with (ps, rest, a, st) => Ep ps rest (attrs_of a) st end.
+Definition ep_of (e:oep) : endpoint :=
+  Ep (oe_pubsub e) (oe_rest e) (oe_source e) (attrs_of (oe_attrs e)) (oe_params e) (oe_query e) (oe_url e) (oe_stmts e).
 
 Definition app_of (o:oapp) : app :=
   App (o_long o) (attrs_of (o_attrs o))
       (list_to_map (map (fun p => (fst p, type_of (snd p))) (o_types o)))
       (list_to_map (map (fun p => (fst p, ep_of (snd p))) (o_eps o))).
 
+(* the lists kept next to the module: primary keys and mixins (absent = empty) *)
 Definition pk_of (o:oapp) : list (appname * name * list name) :=
+  match o_mixins o with [] => [] | l => [(o_name o, mixin_key, l)] end ++
   flat_map (fun p => match snd p with OT _ _ _ (x :: l) => [(o_name o, fst p, x :: l)] | _ => [] end) (o_types o).
 
 Definition state_of (obs:list oapp) : state :=
